@@ -3,6 +3,7 @@ mod common;
 mod alloc;
 mod fes;
 mod gates;
+mod net;
 mod props;
 mod rt;
 
@@ -21,6 +22,7 @@ fn main() {
         ("props", "replay") => props::replay(&args[2..]),
         ("props", "slots") => props::replay_slots(&args[2..]),
         ("body", "replay") => body::replay(&args[2..]),
+        ("net", "replay") => net::replay(&args[2..]),
         ("gates", "replay") => gates::replay(&args[2..]),
         ("alloc", "replay") => alloc::replay(&args[2..]),
         ("alloc", "record") => alloc::record(&args[2..]),
